@@ -534,12 +534,26 @@ def gen_crash_base(rnd, sid):
         h.build(rnd, None, j=rnd.choice([1, 2]), k=1, sched=rand_sched(rnd, 12))
         ne = [e for e in g.edges if not e.phony]
         r = rnd.random()
+        if any((e.deps or e.depfile) and any(x in h.sources for x in e.exp) for e in ne) and rnd.random() < 0.4: r = 0.9
         if r < 0.5 or not ne:
             sname = rnd.choice(sorted(h.sources)); h.edit(sname, 'crash.%d' % rnd.randrange(100000))
-        elif r < 0.75:
+        elif r < 0.7:
             e = rnd.choice(ne); e.ver += 1; h.rewrite_manifest()
-        else:
+        elif r < 0.85:
             e = rnd.choice(ne); o = rnd.choice(e.outs); h.add(Step('rm', 'step rm %s' % hx(o), path=o))
+        else:
+            # the include set of a deps statement changes while its output stays the same (restat): the new
+            # dependency exists only in the deps record written at the very end of FinishCommand
+            es = [e for e in ne if (e.deps or e.depfile) and any(x in h.sources for x in e.exp)]
+            if es:
+                e = rnd.choice(es); e.restat = True; h.rewrite_manifest()
+                h.build(rnd, None, j=1, k=1, sched=rand_sched(rnd, 12))
+                new = 'nh%d' % rnd.randrange(1000); h.edit(new, 'same-text'); old = [x for x in e.hidden]
+                if old and old[0] in h.sources: h.edit(old[0], 'same-text')
+                e.hidden = ([new] + old[1:]) if old else [new]
+                h.add(Step('sethidden', 'step sethidden %s %s' % (hx(e.out0), ' '.join(hx(x) for x in e.hidden)), edge=e.idx, g_after=copy.deepcopy(g)))
+                src = rnd.choice([x for x in e.exp if x in h.sources]); h.add(Step('touch', 'step touch %s' % hx(src), path=src))
+                h.late_edit = new
     return h
 
 def crash_variants(rnd, base, npoints, tears=True):
@@ -556,6 +570,10 @@ def crash_variants(rnd, base, npoints, tears=True):
         h.build(rnd, None, j=j, k=1, sched=sched, crash=k, tear=(t or None))
         st = h.build(rnd, None, j=1, k=1, sched=sched)
         h.add(Step('build', st.line, g=st.g, sources=st.sources, targets=st.targets, opts=st.opts, repeat=True))
+        # whatever the interrupted run had learned must not be lost: a later edit of a (new) dependency is still noticed
+        late = getattr(base, 'late_edit', None)
+        if late:
+            h.edit(late, 'edited-after-recovery'); h.build(rnd, None, j=1, k=1, sched=sched)
         res.append(h)
     return res
 
@@ -733,3 +751,21 @@ def oracle_counters(h, st, b, prev=None):
     if b.exit == 0 and not b.uptodate and finished != total: bad.append('successful build ended with finished=%d total=%d' % (finished, total))
     if b.exit not in (130, None) and started != finished: bad.append('started %d commands but reported %d finished' % (started, finished))
     return bad or None
+
+def motif_restat_deps_crash(rnd, sid):
+    """a restat deps statement whose include set changes while its output stays the same: what the run learned
+    exists only in the deps record written at the very end of FinishCommand"""
+    g = engine.Graph(); g.sources = {'src': 'S', 'h1': 'same', 'h2': 'same'}
+    kind = rnd.choice(['gcc', 'msvc'])
+    e = engine.Edge(0); e.outs = ['o'] + (['o_b'] if rnd.random() < 0.3 and kind != 'gcc' and False else []); e.exp = ['src']; e.deps = kind
+    if kind == 'gcc': e.depfile = 'o.d'
+    e.restat = True; e.hidden = ['h1']; g.edges = [e]
+    if rnd.random() < 0.5:
+        e2 = engine.Edge(1); e2.outs = ['p']; e2.exp = ['o']; g.edges.append(e2)
+    base = Hist(sid, g)
+    base.build(rnd, None, j=1, k=1, sched=[0, 0])
+    e.hidden = ['h2']
+    base.add(Step('sethidden', 'step sethidden %s %s' % (hx('o'), hx('h2')), edge=0, g_after=copy.deepcopy(g)))
+    base.add(Step('touch', 'step touch %s' % hx('src'), path='src'))
+    base.late_edit = 'h2'
+    return base
